@@ -4,7 +4,7 @@ proof:          lean/PymtlVerif/Props/C08.lean (model: Model/Nets.lean)
 correspondence: top.get_all_value_nets() / get_signal_adjacency_dict() of generated hierarchical designs, elaborated
                 under several statement orders and side flips, vs `nets`/`resolve` of the model; then simulation
 direct oracle:  eval(repr(member)) is member for every net member + union-find over the connection list + bit-level source analysis (c08_gen.oracle) + "all orders give the
-                same nets and writers" + "every member of a net carries the writer's value" (DefaultPassGroup)
+                same nets and writers" + "every member of a net carries the writer's value" (DefaultPassGroup with sim_eval_combinational / sim_reset / sim_tick as the first request; UnrollSim or Mamba2020 on a second order)
 """
 import random
 
